@@ -34,6 +34,7 @@ UNIT_DEPS = {
     'prim_mul': ['mul', 'conv'],
     'round': ['core', 'pow10', 'types', 'context'],
     'config': ['types'],
+    'div': ['core', 'digits', 'config', 'cmp', 'derived', 'conv'],
     'toint': ['core', 'scale', 'pow10', 'conv'],
     'digits': ['pow10', 'core'],
     'rem': ['core', 'scale', 'pow10'],
@@ -64,7 +65,7 @@ NOT_APPLICABLE = {
     'C13': 'statement about the real function e^x to one ulp; contracts here are integer-only and the Taylor loop has no termination measure (DESIGN.md section 7)',
     'C17': 'feature-gated code generic over foreign serde traits and strings; no contract within reach (DESIGN.md section 7)',
 }
-for _p in ['C02', 'C05', 'C07', 'C08', 'C10', 'C11', 'C12', 'C14', 'C16', 'C19', 'C20']:
+for _p in ['C02', 'C05', 'C07', 'C10', 'C11', 'C12', 'C14', 'C16', 'C19']:
     NOT_APPLICABLE[_p] = _WIP
 
 _NOTE_COMMON = ('Assumed: num-bigint/num-traits/num-integer contracts (spec/shim_base.rs, vf/shimgen.py), std specs, '
@@ -91,6 +92,15 @@ prop('C06', units=['round', 'scale', 'context', 'config', 'core', 'pow10'], leve
      level_note=_NOTE_COMMON + ' round_u32 is not yet under contract.',
      technique=_TECH)
 
+prop('C08', units=['div', 'digits', 'core', 'config', 'pow10', 'derived'], level='proof',
+     level_text=('Verus proves on the real body of impl_division (sign recursion, shift loop, digit loop, final rounding) that the result is '
+                 'sign * (floor(E/|d|) rounded half-up on the remainder) with E = |n|*10^(S-s0), that digits are dropped only once the quotient has '
+                 'max_precision digits (so a quotient that terminates earlier is returned exactly), loop termination, and freedom from i64 overflow; '
+                 'and for the four decimal/decimal Div impls: a return implies a non-zero divisor (the intended panic is modelled as divergence), the '
+                 'zero-numerator / unit-divisor / equal-integers shortcuts are exact, otherwise impl_division is called with the configured precision'),
+     level_note=_NOTE_COMMON + ' get_rounding_term relies on float axiom A1. Primitive-integer and float divisor forms (macro impl_div_for_primitive) are being added; see DESIGN.md.',
+     technique=_TECH)
+
 prop('C09', units=['rem', 'scale', 'core', 'pow10'], level='proof',
      level_text=('Verus proves for each of the four Rem impls and RemAssign, on its own body, that a return implies a non-zero divisor '
                  '(the big-integer % diverges on zero), that the result scale is max(sa, sb) and that the unscaled result is the truncated '
@@ -106,6 +116,14 @@ prop('C15', units=['toint', 'conv', 'scale', 'core', 'pow10'], level='proof',
                  'ten integer types and From<BigInt> exact with scale 0, is_integer <=> i mod 10^s == 0'),
      level_note=_NOTE_COMMON + ' num-bigint to_i64/to_u64/... are assumed (Some iff fits). The closure of the MIN special case is wrapped in a block to carry its contract (inline annotation). From<(T,i64)> is not under contract (tuple-pattern parameter).',
      technique=_TECH)
+
+prop('C20', units=['config', 'context', 'round', 'div'], level='proof',
+     level_text=('The build-time constants are replaced by uninterpreted symbols (rewrite R9: the include!(OUT_DIR/...) items must be present), so every '
+                 'proof holds for all configurations at once: Context::default() == (cfg precision, cfg mode), RoundingMode::default() == cfg mode, '
+                 'round(n) == with_scale_round(n, cfg mode), the four Div impls pass cfg precision to impl_division; a consumer hard-coding 100 or HalfEven '
+                 'cannot be proved equal to an arbitrary symbol'),
+     level_note=_NOTE_COMMON + ' build.rs itself (a separate program that formats env strings) is assumed to emit what it parsed; exp is excluded (C13); sqrt/cbrt/inverse/Display default-context forms are added as their units are built.',
+     technique=_TECH + '; configuration constants as uninterpreted symbols')
 
 prop('C18', units=['pow10', 'core', 'canon', 'scale', 'digits'], level='proof',
      level_text=('Verus proves field-exact postconditions for constructors, accessors and reference views (with the reference view\'s sign/magnitude '
